@@ -32,7 +32,7 @@ type C11Case struct {
 	Cuts      []int           `json:"cuts,omitempty"`
 	AbortAt   int             `json:"abort_at"` // -1: the server sends everything, then closes
 	Receives  int             `json:"receives"`
-	API       string          `json:"api,omitempty"` // "" = Send + receive | "upgrade" = Upgrade + its receive (flags must be Upgrade) | "call" = Connection.Call (flags 0)
+	API       string          `json:"api,omitempty"` // "" = Send + receive | "upgrade" = Upgrade + its receive (flags must be Upgrade) | "call" = Connection.Call (flags 0) | "getinfo", "getdesc" = the introspection wrappers
 	Transport string          `json:"transport"`     // pipe | unix
 	Origin    string          `json:"origin,omitempty"`
 }
@@ -198,6 +198,40 @@ func execC11(c C11Case, bound time.Duration) (facts map[string]bool, err error) 
 				return 0, context.DeadlineExceeded
 			}
 		}
+	case "getinfo", "getdesc":
+		// the convenience wrappers are client calls like any other: one request, one reply frame, success only for a complete reply
+		facts["api:"+c.API] = true
+		callDone := make(chan error, 1)
+		var wrapped json.RawMessage
+		go func() {
+			if c.API == "getinfo" {
+				var v, p, ver, u string
+				var ifs []string
+				e := cliConn.GetInfo(ctx, &v, &p, &ver, &u, &ifs)
+				wrapped, _ = json.Marshal(map[string]interface{}{"vendor": v, "product": p, "version": ver, "url": u, "interfaces": ifs})
+				callDone <- e
+				return
+			}
+			d, e := cliConn.GetInterfaceDescription(ctx, "x.y")
+			wrapped, _ = json.Marshal(map[string]interface{}{"description": d})
+			callDone <- e
+		}()
+		first := true
+		receive = func(ctx context.Context, out interface{}) (uint64, error) {
+			if !first {
+				return 0, io.ErrUnexpectedEOF
+			}
+			first = false
+			select {
+			case err := <-callDone:
+				if p, ok := out.(*json.RawMessage); ok {
+					*p = wrapped
+				}
+				return 0, err
+			case <-time.After(bound):
+				return 0, context.DeadlineExceeded
+			}
+		}
 	default:
 		receive, serr = cliConn.Send(ctx, c.Method, params, c.Flags)
 	}
@@ -262,7 +296,8 @@ func execC11(c C11Case, bound time.Duration) (facts map[string]bool, err error) 
 		}
 	}()
 	nrecv := c.Receives
-	if c.API == "call" && nrecv > 1 {
+	callLike := c.API == "call" || c.API == "getinfo" || c.API == "getdesc"
+	if callLike && nrecv > 1 {
 		nrecv = 1
 	}
 	for i := 0; i < nrecv; i++ {
@@ -276,7 +311,7 @@ func execC11(c C11Case, bound time.Duration) (facts map[string]bool, err error) 
 		}
 		// every third receive passes no output value at all, as generated stubs do for methods without output
 		// (receive(ctx, nil)): the frame's parameters are then simply not delivered
-		nilOut := i%3 == 1 && c.API != "call"
+		nilOut := i%3 == 1 && !callLike
 		if nilOut {
 			target = nil
 			facts["nil-output-value"] = true
@@ -348,13 +383,30 @@ func execC11(c C11Case, bound time.Duration) (facts map[string]bool, err error) 
 			return facts, fmt.Errorf("%sreturned error %v (%T) for a well-formed reply frame: %s", pre, rerr, rerr, Preview(frames[i]))
 		}
 		facts["reply"] = true
-		if c.API != "call" && (fl&varlink.Continues != 0) != m.Continues {
+		if !callLike && (fl&varlink.Continues != 0) != m.Continues {
 			return facts, fmt.Errorf("%sContinues flag = %v, the frame says %v: %s", pre, fl&varlink.Continues != 0, m.Continues, Preview(frames[i]))
 		}
 		if fl&^uint64(varlink.Continues) != 0 {
 			return facts, fmt.Errorf("%sunknown flag bits %#x", pre, fl)
 		}
 		if nilOut {
+			continue
+		}
+		if c.API == "getinfo" || c.API == "getdesc" {
+			// the wrapper's results are the reply's members, where the reply has them with the right types
+			var strict, got map[string]json.RawMessage
+			if m.Parameters != nil {
+				json.Unmarshal(*m.Parameters, &strict)
+			}
+			json.Unmarshal(raw, &got)
+			for _, k := range []string{"vendor", "product", "version", "url", "description"} {
+				var sv string
+				if w, ok := strict[k]; ok && got[k] != nil && json.Unmarshal(w, &sv) == nil && string(w) != "null" {
+					if d := JSONDiff(w, got[k]); d != "" {
+						return facts, fmt.Errorf("%s%s returned %s = %s, the reply frame says %s", pre, c.API, k, Preview(got[k]), Preview(w))
+					}
+				}
+			}
 			continue
 		}
 		if m.Parameters == nil || string(*m.Parameters) == "null" {
@@ -379,7 +431,8 @@ func execC11(c C11Case, bound time.Duration) (facts map[string]bool, err error) 
 	return facts, nil
 }
 
-var c11ReplyConsts = []string{`{}`, `null`, ` null `, `{"parameters":{}}`, `{"parameters":null}`, `{"continues":true}`, `{"continues":false,"parameters":{"a":1}}`,
+var c11ReplyConsts = []string{`{"parameters":{"vendor":"V","product":"P \"q\"","version":"1","url":"u","interfaces":["org.varlink.service","x.y"]}}`, `{"parameters":{"description":"interface x.y\nmethod M() -> ()\n"}}`,
+	`{"parameters":{"vendor":"V","product":7}}`, `{}`, `null`, ` null `, `{"parameters":{}}`, `{"parameters":null}`, `{"continues":true}`, `{"continues":false,"parameters":{"a":1}}`,
 	`{"error":"x.y.E"}`, `{"error":"x.y.E","parameters":{"why":"z"}}`, `{"error":""}`, `{"error":"","parameters":{"k":1}}`,
 	`{"error":"org.varlink.service.MethodNotFound","parameters":{"method":"Zed"}}`, `{"error":"org.varlink.service.MethodNotFound"}`,
 	`{"error":"org.varlink.service.MethodNotFound","parameters":{"method":17}}`, `{"error":"org.varlink.service.InterfaceNotFound","parameters":{"interface":"a.b","extra":1}}`,
@@ -445,6 +498,12 @@ func genC11(t *rapid.T) C11Case {
 		c.API, c.Flags = "upgrade", varlink.Upgrade
 	case 1:
 		c.API, c.Flags = "call", 0
+	case 2:
+		if rapid.Bool().Draw(t, "wrapper") {
+			c.API, c.Flags, c.Method, c.Params = "getinfo", 0, "org.varlink.service.GetInfo", nil
+		} else {
+			c.API, c.Flags, c.Method, c.Params = "getdesc", 0, "org.varlink.service.GetInterfaceDescription", json.RawMessage(`{"interface":"x.y"}`)
+		}
 	}
 	frames, _ := SplitFrames(c.Reply)
 	c.Receives = len(frames) + rapid.IntRange(0, 1).Draw(t, "extra")
